@@ -243,12 +243,11 @@ def gen_instance(rng, iid, family='random', nmax_geos=6):
           cells[(g0, days[j])], cells[(g0, days[j + 1])] = a, -a
         if len(days) % 2:
           cells[(g0, days[-1])] = 0
-        if share[1] == 0 and vtol[1] == 0:
-          # a share of exactly zero matters where shares are divided: volume tolerance or share range
-          if (iid // 9) % 2:
-            vtol = [(1, 2), (1, 1), (1, 4)][iid % 3]
-          else:
-            share = (5, 100, [45, 60, 70][iid % 3], 100)
+        if family != 'degenerate' and not default_elig:
+          elig[g0 - 1] = 'ctx'       # ... and the geo may be treated, so that it is tried as a group of its own
+        if vtol[1] == 0:
+          # a share of exactly zero matters where shares are divided: every such panel has a volume tolerance
+          vtol = [(1, 2), (1, 1), (1, 4)][iid % 3]
   inst = {'id': iid, 'family': family, 'n': n, 'n_dates': n_dates, 'cells': cells, 'elig': elig,
           'default_elig': default_elig, 'par': p, 'tr': tr, 'cr': cr, 'gtol': gtol, 'vtol': vtol, 'share': share,
           'nmax': nmax, 'want_budget': want_budget, 'budget': None,
